@@ -799,11 +799,54 @@ def search(ctx):
                 cands.append((cfg_unjson(c["config"]), hist_unjson(c["history"])))
     for _ in range(ctx.n(300, 3000)):
         cands.append(gen_case(ctx, rng, rng.choice(["filter", "filter", "mixed", "claims"])))
+    cands += variant_cases(ctx, rng)
     for cfg, hist in cands:
         w = c10_witness(cfg, hist)
         if w and w["key"] not in seen:
             seen.add(w["key"])
             out.append(w)
+    return out
+
+
+def variant_cases(ctx, rng):
+    """fast-packet PGNs with several definitions (same PGN, different ids): variant A is filtered out BY ID (decided
+    only after reassembly), variant B is permitted; A then B on the same stream — with the same and with the next
+    sequence counter — so that whatever the dropped message leaves behind meets the following permitted one"""
+    from props import c08 as C8
+    Dec = _impl()[0]
+    out = []
+    for pgn, g in C8._groups(C8._db()).items():
+        if len(out) >= ctx.n(12, 60):
+            break
+        if not (len(g) > 1 and any(C8._match_fields(d) for d in g)) or not Dec._isFastPGN(pgn):
+            continue
+        nb = max([8] + [d.get("Length", 8) for d in g if isinstance(d.get("Length", 8), int)])
+        by_id = {}
+        for q in C8._payloads(g, rng, 2):
+            d = C8._spec_select(g, q)
+            if d is None:
+                continue
+            data = (q & ((1 << (8 * nb)) - 1)).to_bytes(nb, "little")
+            line = "2020-01-01-00:00:00.000,3,%d,5,255,%d,%s" % (pgn, nb, ",".join("%02x" % b for b in data))
+            try:
+                m = Dec().decode_basic_string(line, True)
+            except Exception:  # noqa: BLE001
+                continue
+            if m is not None and m.id == d["Id"]:
+                by_id.setdefault(m.id, data)
+        ids = sorted(by_id)
+        if len(ids) < 2:
+            continue
+        a, b = rng.sample(ids, 2)
+        dst = 255 if not is_pdu1(pgn) else 17
+
+        def frames(data, seq, pgn=pgn, dst=dst):
+            return [(mk_pkt(pgn, 5, dst, 3, (f + bytes([0xFF] * 8))[:8], 8), False) for f in fast_frames(data, seq)]
+        sq = rng.randrange(8)
+        hist = frames(by_id[a], sq) + frames(by_id[b], sq) + frames(by_id[a], (sq + 1) % 8) + frames(by_id[b], (sq + 2) % 8)
+        rc = "".join(ch.upper() if rng.random() < 0.5 else ch.lower() for ch in a)
+        for cfg in ({"ex": [rc], "inc": []}, {"ex": [], "inc": [b]}, {"ex": [], "inc": [b, 127250]}):
+            out.append(({**cfg, "exm": [], "incm": [], "nm": False}, hist))
     return out
 
 
